@@ -30,6 +30,10 @@ class InterpError(Exception):
     pass
 
 
+# returned by a library model that has nothing to say about this call in this state: the call gets the default treatment
+DECLINE = object()
+
+
 # ---------------------------------------------------------------------------------------
 # values
 
@@ -2502,6 +2506,9 @@ class Interp:
                         succs += r if r else [s2]
                     return succs
                 out = m(self, st, fr, t, args, ga)
+                if out is DECLINE:
+                    self.stats['modelled'] -= 1
+                    break
                 return self.finish_model(st, fr, t, out)
         import re as _re
         # operator traits on primitive integers with reference operands (`x >> &n`, `&a + &b`): the primitive operation on
